@@ -9,7 +9,7 @@ import itertools
 import numpy as np
 
 from checks import specgen as SG
-from checks.common import hash_tag
+from checks.common import hash_tag, relayout, xf_build, xf_names
 from qmc import gen as G
 from qmc import oracle as O
 from qmc.loader import load
@@ -50,6 +50,19 @@ def cases(tier, seed):
         for mask in G.COMPONENT_MASKS:
             for fn, arg in (("rand_qsvd", 1), ("pass_eff_qsvd", 2)):
                 out.append({"key": f"mask/{fn}/{m}x{n}/{G.mask_name(mask)}", "fn": fn, "m": m, "n": n, "r": 3, "R": 3, "P": 1, "arg": arg, "mask": mask, "S": 2})
+    # unusual-but-legal variants (leading column dependency, near dependency, ties, gradings, special matrices, layouts, ...); rank from the oracle
+    for m, n in ((3, 3), (4, 3), (3, 4), (4, 4)):
+        for nm in xf_names(m, n):
+            for fn, args in (("rand_qsvd", (0, 1)), ("pass_eff_qsvd", (2, 3))):
+                for arg in args:
+                    for R, P in ((1, 0), (2, 1), (2, max(m, n)), (min(m, n), 0), (min(m, n), 2)):
+                        out.append({"key": f"xf/{fn}/{m}x{n}/{nm}/R={R}/P={P}/arg={arg}", "fn": fn, "m": m, "n": n, "r": 0, "R": R, "P": P, "arg": arg, "xf": nm, "S": 2})
+    # ill-conditioned full-rank inputs: sigma = (4, 2, 1, 2^-36): the smallest direction must survive every internal orthonormalisation
+    for m, n in ((4, 4), (5, 4), (4, 5), (6, 4)):
+        for fn, args in (("rand_qsvd", (0, 1, 2)), ("pass_eff_qsvd", (2, 3))):
+            for arg in args:
+                for P in (0, 1, 4):
+                    out.append({"key": f"graded/{fn}/{m}x{n}/P={P}/arg={arg}", "fn": fn, "m": m, "n": n, "r": 4, "R": 4, "P": P, "arg": arg, "graded": True, "S": 2})
     # whole-matrix scalings (thresholds inside the algorithms must be relative)
     for m, n in ((3, 3), (4, 3), (3, 4)):
         for e in (-50, 40):
@@ -64,12 +77,20 @@ def run_case(case, seed):
     p = min(m, n)
     fill = G.Fill(seed, stream=hash_tag(f"{m}x{n}/r={r}"))
     vals = VALS[:r] + [0.0] * (p - r)
-    if case.get("mask"):
-        B_ = fill.quat_int(m, n, -4, 4).astype(float)
-        B_[B_ == 0] = 2.0
-        A = G.apply_component_mask(B_, case["mask"])
+    lay = "C"
+    if case.get("graded"):
+        vals = [4.0, 2.0, 1.0, 2.0 ** -36]
+        A, _, _ = SG.build(m, n, vals, "hh", "hh", fill, variant=5)
+    elif case.get("mask") or case.get("xf"):
+        if case.get("xf"):
+            A, lay = xf_build(case["xf"], m, n, fill)
+        else:
+            B_ = fill.quat_int(m, n, -4, 4).astype(float)
+            B_[B_ == 0] = 2.0
+            A = G.apply_component_mask(B_, case["mask"])
         vals = [float(v) for v in O.svals(A)]
-        r = int(sum(1 for v in vals if v > 1e-9 * max(vals[0], 1.0)))
+        r = int(sum(1 for v in vals if v > 1e-9 * max(vals[0], 1e-300)))
+        vals = [v if i < r else 0.0 for i, v in enumerate(vals)]
     else:
         A, _, _ = SG.build(m, n, vals, "hh", "hh", fill, variant=r)
     if case.get("scale"):
@@ -77,14 +98,16 @@ def run_case(case, seed):
         vals = [float(np.ldexp(v, case["scale"])) for v in vals]
     sig = np.array(vals)
     nA = O.fro(A)
-    Aq = G.to_quat(A)
+    Aq = relayout(G.to_quat(A), lay)
     f = getattr(lib.qsvd, case["fn"])
     S = case.get("S", 4)
     fails = []
     evals = 0
     ok_runs = 0
     wide_sketch = (R + P) > p
-    tags = {"fn": case["fn"], "wide_sketch": wide_sketch, "sketch_gt_rank": (R + P) > r, "r_lt_R": r < R or (case.get("mask") is not None and len(vals) > 1 and abs(vals[0] - vals[1]) <= 1e-9 * vals[0]), "m": m, "n": n, "R": R, "P": P, "r": r, "arg": case["arg"]}
+    tags = {"fn": case["fn"], "wide_sketch": wide_sketch, "sketch_gt_rank": (R + P) > r, "r_lt_R": r < R or (case.get("mask") is not None and len(vals) > 1 and abs(vals[0] - vals[1]) <= 1e-9 * vals[0]),
+            "repeated": bool(any(abs(vals[i] - vals[i + 1]) <= 1e-7 * vals[0] for i in range(r - 1))), "xf": case.get("xf"),
+            "illcond": bool(r >= 1 and vals[0] / vals[r - 1] >= 2.0 ** 10), "m": m, "n": n, "R": R, "P": P, "r": r, "arg": case["arg"]}
     first = None
     for sd in range(S):
         np.random.seed(sd)
@@ -107,10 +130,11 @@ def run_case(case, seed):
             continue
         tolu = 1e-9
         dU, dV = O.unitarity_defect(U), O.unitarity_defect(V)
+        cu = (vals[0] / vals[r - 1]) * O.U if r >= 1 else 1.0
         if dU > tolu:
-            fails.append(fail("U_orthonormal", f"seed {sd}: ||U^H U - I|| = {dU:.3e}", **t2))
+            fails.append(fail("U_orthonormal", f"seed {sd}: ||U^H U - I|| = {dU:.3e}", dev_over_cond_u=dU / cu, **t2))
         if dV > tolu:
-            fails.append(fail("V_orthonormal", f"seed {sd}: ||V^H V - I|| = {dV:.3e}", **t2))
+            fails.append(fail("V_orthonormal", f"seed {sd}: ||V^H V - I|| = {dV:.3e}", dev_over_cond_u=dV / cu, **t2))
         if np.any(s < -1e-12 * nA) or np.any(np.diff(s) > 1e-10 * nA):
             fails.append(fail("s_nonneg_nonincreasing", f"seed {sd}: s = {s.tolist()}", **t2))
         if np.any(s > sig[:R] * (1 + 1e-9) + 1e-10 * nA):
